@@ -37,3 +37,17 @@ Definition pfe_unpack (data : bytes) (pfc : Z) : res pfe :=
   pfe_new pfc v.
 
 Definition pfe_eqb (a b : pfe) : bool := (pfe_pfc a =? pfe_pfc b) && (pfe_val a =? pfe_val b).
+
+(* ---- operation histories: pfc and val are public attributes ---- *)
+Inductive pfe_op := PfVal (v : Z) | PfPfc (v : Z) | PfPack | PfLen | PfObserve | PfEqFresh.
+
+Definition pfe_apply (f : pfe) (o : pfe_op) : pfe :=
+  match o with
+  | PfVal v => {| pfe_pfc := pfe_pfc f; pfe_val := v |}
+  | PfPfc v => {| pfe_pfc := v; pfe_val := pfe_val f |}
+  | _ => f
+  end.
+
+(* fresh = PacketFieldEnum(f.pfc, f.val) ; f == fresh, fresh == f *)
+Definition pfe_eq_fresh (f : pfe) : res (bool * bool) :=
+  do g <- pfe_new (pfe_pfc f) (pfe_val f); Ok (pfe_eqb f g, pfe_eqb g f).
